@@ -215,6 +215,10 @@ class Iter:
                     r = callf(ex, st[1], v)
                     if r.idx == 0: keep = False; break
                     v = r.fields[0]
+                elif k == 'enumerate' and len(st) > 2 and st[2]:
+                    # .rev().enumerate(): the numbering follows the reversed order (NOT the base index); a further rev() / next_back() is not modelled
+                    if not s.rev or from_back: raise Unsupported('rev / next_back after rev().enumerate()')
+                    v = Agg('tuple', 0, [st[1][0], v]); st[1][0] += 1
                 elif k == 'enumerate':
                     if i is None or any(x[0] in ('filter', 'filter_map') for x in s.stages[:s.stages.index(st)]):
                         if fb: raise Unsupported('rev over filtered enumerate')
